@@ -361,4 +361,18 @@ CHECKS = {
         assumptions=["a log.Fatal or panic of the fresh process is a violation"],
         technique="property-based testing with a fresh-process restart, round-trip oracle",
     ),
+    "C16": dict(
+        test="TestC16", level="exploration", shards=16, cmds=["jailworker"],
+        tiers=dict(quick=dict(checks=60, timeout=600), thorough=dict(checks=4000, timeout=3000)),
+        rule="rapid sequences of 1-8 DataService requests (Create, Write, Query, GetInfo, Destroy; consecutive requests "
+             "often reuse a key, e.g. create-then-destroy) whose keys are assembled from components {.., ., empty, ~, "
+             "backslash, names with spaces, unicode, 300-byte names, ..., ordinary} in 1-6 item components with a valid "
+             "timeframe at any position and default or custom category lists; executed by a worker process chroot'ed "
+             "into a throw-away tree whose data root lies six directories deep beside decoys (one shaped like a "
+             "marketstore directory); oracle: a recursive (path, type, size, SHA-1) snapshot of everything outside the "
+             "data root is identical before and after; non-trivial = sequence containing a key whose lexically cleaned "
+             "join with the root lies outside it",
+        assumptions=["requires CAP_SYS_CHROOT (uid 0) as in this sandbox; a worker crash is counted, not asserted"],
+        technique="structured fuzzing of key strings in a chroot jail, file-system snapshot oracle",
+    ),
 }
